@@ -97,6 +97,25 @@ fn run_loss_chain_case(id: &str, r: &mut Rng, out: &mut String) {
         }
         sale_days.push(day);
     }
+    // every third chain is moved so that one sale is traded at the end of December and settles in
+    // January (sales settle three days after the trade in these chains)
+    if r.chance(33) && !sale_days.is_empty() {
+        let pivot = *r.pick(&sale_days);
+        let y = date_from_jd(pivot).year();
+        let target = jd(time::Date::from_calendar_date(y + 1, time::Month::January, 2).unwrap());
+        let shift = target - pivot;
+        for t in rows.iter_mut() {
+            let s2 = date_from_jd(jd(t.settlement_date) + shift);
+            t.settlement_date = s2;
+            t.trade_date = match t.action_specifics {
+                TxActionSpecifics::Sell(_) => date_from_jd(jd(s2) - 3),
+                _ => s2,
+            };
+        }
+        for d in sale_days.iter_mut() {
+            *d += shift;
+        }
+    }
     for (i, t) in rows.iter_mut().enumerate() {
         t.read_index = i as u32;
         t.security = "S0".to_string();
@@ -105,7 +124,8 @@ fn run_loss_chain_case(id: &str, r: &mut Rng, out: &mut String) {
         return;
     }
     let cut = *r.pick(&sale_days) + *r.pick(&[0i32, 0, 1, -1, 3]);
-    run_rows(id, names, rows, cut, false, out);
+    let annual = r.chance(40);
+    run_rows(id, names, rows, cut, annual, out);
 }
 
 pub fn run_case(id: &str, r: &mut Rng, out: &mut String) {
